@@ -18,6 +18,8 @@ enum Case {
     Map { cid: Cid, assign: [u8; 6] },
     /// construction from arrays (iteration order not observable): supplementary
     Arrays { cid: Cid },
+    /// one amino acid with `n` codons (counter widths: 255..257, 511..513, 65535..65537), one with exactly one, one with two
+    Many { cid: Cid, n: usize },
 }
 
 fn max_entries(t: Tier) -> usize {
@@ -48,7 +50,27 @@ fn gen(t: Tier, _seed: u64, emit: &mut dyn FnMut(Case)) {
             }
         }
         emit(Case::Arrays { cid });
+        let total = (1..=4u32).map(|l| cid_symbols(cid).pow(l)).sum::<usize>();
+        for n in [255usize, 256, 257, 258, 511, 512, 513, 65535, 65536, 65537] {
+            if n + 3 <= total {
+                emit(Case::Many { cid, n });
+            }
+        }
     }
+}
+
+fn cid_symbols(cid: Cid) -> usize {
+    bsv::spec::spec(cid).syms.len()
+}
+
+/// the i-th codon of lengths 1..=4 in length-then-lexicographic order (symbol indices)
+fn nth_codon(mut i: usize, m: usize) -> Vec<u8> {
+    let mut l = 1;
+    while i >= m.pow(l as u32) {
+        i -= m.pow(l as u32);
+        l += 1;
+    }
+    (0..l).map(|p| ((i / m.pow(p as u32)) % m) as u8).collect()
 }
 
 /// codon universe: 6 keys of mixed lengths 1..4 (symbol indices), and non-key query codons
@@ -152,7 +174,7 @@ fn query<A: Sx>(table: &CodonTable<A, Amino>, entries: &[(Vec<A>, Amino)], order
 
 fn run(c: &Case, out: &mut Out) {
     match c {
-        Case::Map { cid, .. } | Case::Arrays { cid } => match cid {
+        Case::Map { cid, .. } | Case::Arrays { cid } | Case::Many { cid, .. } => match cid {
             Cid::Dna => run_g::<Dna>(c, out),
             Cid::Iupac => run_g::<Iupac>(c, out),
             _ => out.violation("MACHINERY/codec", format!("{cid:?}")),
@@ -200,6 +222,54 @@ fn run_g<A: Sx>(c: &Case, out: &mut Out) {
             out.dim("orders_seen", seen.len() as i64);
             out.count("hash maps built", attempts as u64);
             out.observe(&(A::CID, assign));
+        }
+        Case::Many { n, .. } => {
+            let n = *n;
+            let cn = A::CID.name();
+            let m = alphabet::<A>().len();
+            // codons 0..n -> am[0]; codon n -> am[1]; codons n+1, n+2 -> am[2]; am[3] unmapped
+            let amino_of = |i: usize| if i < n { am[0] } else if i == n { am[1] } else { am[2] };
+            for rep in 0..3 {
+                let hm: HashMap<Seq<A>, Amino> = (0..n + 3).map(|i| (build(&syms::<A>(&nth_codon(i, m))), amino_of(i))).collect();
+                out.units += 1;
+                let table = match catch(|| CodonTable::<A, Amino>::from_map(hm)) {
+                    Ok(t) => t,
+                    Err(e) => {
+                        out.checks += 1;
+                        out.violation(format!("{cn}/codon-table/from_map-panics"), format!("from_map of a map giving one amino acid {n} codons (repetition {rep}): {e}"));
+                        continue;
+                    }
+                };
+                for (b, want) in [(am[0], Err("AmbiguousCodon")), (am[1], Ok(show(&syms::<A>(&nth_codon(n, m))))), (am[2], Err("AmbiguousCodon")), (am[3], Err("InvalidAmino"))] {
+                    out.stage = "CodonTable::try_to_codon (large table)";
+                    let got = catch(|| table.try_to_codon(b)).map(|r| r.map(|c| c.to_string()).map_err(|e| class(&e)));
+                    out.check(got == Ok(want.clone()), || {
+                        (
+                            format!("{cn}/codon-table/try_to_codon-wrong-with-many-codons-per-amino"),
+                            format!("map with {n} codons for {:?}, 1 for {:?}, 2 for {:?}: try_to_codon({:?}) = {:?}, want {:?}", am[0].to_char(), am[1].to_char(), am[2].to_char(), b.to_char(), got, want),
+                        )
+                    });
+                }
+                for i in (0..n + 3).step_by(if n > 1000 { 97 } else { 1 }).chain(n.saturating_sub(2)..n + 3) {
+                    let codon = syms::<A>(&nth_codon(i, m));
+                    let pl = place(&codon, i % nof, 0);
+                    out.stage = "CodonTable::try_to_amino (large table)";
+                    let got = catch(|| table.try_to_amino(pl.view()));
+                    out.check(matches!(&got, Ok(Ok(a)) if *a == amino_of(i)), || {
+                        (
+                            format!("{cn}/codon-table/try_to_amino-wrong-with-many-codons-per-amino"),
+                            format!("map with {n}+3 entries: try_to_amino({}) = {:?}, want {:?}", show(&codon), got.as_ref().map(|r| r.as_ref().map(|a| a.to_char()).map_err(class)), amino_of(i).to_char()),
+                        )
+                    });
+                }
+                let non = syms::<A>(&nth_codon(n + 3, m));
+                let got = catch(|| table.try_to_amino(&build(&non)));
+                out.check(matches!(&got, Ok(Err(TranslationError::InvalidCodon(_)))), || {
+                    (format!("{cn}/codon-table/try_to_amino-translates-a-non-key"), format!("map with {n}+3 entries: try_to_amino(non-key {}) is not InvalidCodon", show(&non)))
+                });
+            }
+            out.dim("codons_per_amino", n as i64);
+            out.observe(&(A::CID, n));
         }
         Case::Arrays { .. } => {
             // arrays convert through From<[(K, V); N]> for HashMap; the order is not observable: supplementary repetition
